@@ -38,6 +38,18 @@ def generate(rng, tier):
     env["effect_cost_us"] = 0
     env["enum_profile"] = "sorted"
     tree = gen.gen_tree(rng, max_entries=10, max_depth=3, hostile=0.1)
+    if rng.random() < 0.2:
+        # canonically equivalent twin names in one folder (legal on ext4 / tmpfs / APFS): the order of the two must
+        # not depend on how the OS enumerates them
+        parent = rng.choice([""] + gen.tree_dirs(tree))
+        for a, b in rng.sample([("caf\u00e9.txt", "cafe\u0301.txt"), ("\u212b.dat", "\u00c5.dat"), ("u\u0308 d", "\u00fc d")], 1):
+            for n in (a, b):
+                rel = (parent + "/" if parent else "") + n
+                if n.endswith(" d"):
+                    tree[rel] = {"t": "d"}
+                    tree[rel + "/f.bin"] = {"t": "f", "c": gen.unique_content(rng)}
+                else:
+                    tree[rel] = {"t": "f", "c": gen.unique_content(rng)}
     env["tree"] = tree
     pat = rng.choice(PATTERNS)
     nested = scen.subroots_of(tree, rng, 3) if rng.random() < 0.6 else []
